@@ -253,6 +253,18 @@ def check_register(text, lane, res, stats):
 MIRI_ENV = {"MIRIFLAGS": "-Zmiri-disable-isolation"}
 
 
+PANIC_IN_LIB = re.compile(r"panicked at ([^\s:]*crates/[^\s:]+):(\d+)")
+
+
+def library_panic(stderr_text):
+    """A panic whose location is inside the repository's crates (not the harness): the code under test failed an assertion of its own."""
+    m = PANIC_IN_LIB.search(stderr_text)
+    if not m:
+        return None
+    i = stderr_text.find("panicked at")
+    return stderr_text[i:i + 300].replace("\n", " ")
+
+
 def miri_lane(res, tier):
     """Global-choice register + a short print run under Miri's scheduler / weak-memory emulation, many seeds."""
     hd = common.harness_dir()
@@ -287,6 +299,9 @@ def miri_lane(res, tier):
             err = p.stderr.decode("utf-8", "replace")
             if "Undefined Behavior" in err or "Data race" in err:
                 res.violation("c19:miri:undefined-behaviour", "[%s] Miri reports: %s" % (lane, err.strip().splitlines()[0:6]), check="c19", lane="miri")
+                continue
+            if p.returncode != 0 and library_panic(err):
+                res.violation("c19:panic-in-library", "[%s] %s" % (lane, library_panic(err)), check="c19", lane="miri")
                 continue
             if p.returncode != 0:
                 res.add_inconclusive(lane, "miri run failed (%d): %s" % (p.returncode, err[-300:]))
@@ -367,6 +382,9 @@ def run(res, tier):
         for (seed, t, strip), f in futs:
             p = f.result()
             lane = "native:print:threads=%d:%s:seed=%d" % (t, "strip" if strip else "pass-through", seed)
+            if p.returncode != 0 and library_panic(p.stderr.decode("utf-8", "replace")):
+                res.violation("c19:panic-in-library", "[%s] %s" % (lane, library_panic(p.stderr.decode("utf-8", "replace"))), check="c19", lane=lane)
+                continue
             if p.returncode != 0:
                 raise Inconclusive("[%s] vh-mt exited with %d: %s" % (lane, p.returncode, p.stderr[-300:]))
             total_lines += check_pipe(p.stdout, "stdout", t, per, strip, res, lane, stats)
@@ -399,10 +417,28 @@ def run(res, tier):
     ev = 0
     for s in range(3 if tier == "quick" else 10):
         p = subprocess.run([exe, "register", "3", "5", str(reg_ops // 8), str(common.SEED * 100 + s)], env=common.ENV, stdout=subprocess.PIPE, stderr=subprocess.PIPE, timeout=1800)
+        if p.returncode != 0 and library_panic(p.stderr.decode("utf-8", "replace")):
+            res.violation("c19:panic-in-library", "[native:register:seed=%d] %s" % (s, library_panic(p.stderr.decode("utf-8", "replace"))), check="c19", lane="native:register")
+            continue
         if p.returncode != 0:
             raise Inconclusive("vh-mt register exited with %d: %s" % (p.returncode, p.stderr[-300:]))
         ev += check_register(p.stdout.decode(), "native:register:seed=%d" % s, res, rstats)
     res.add_lane("native:register", "held", rstats, evaluations=ev, distinct=ev)
+    # the same history in a build with debug assertions (the library's own debug_assert!s are live)
+    tdd = common.cargo_build(["vh-mt"], "dev")
+    exed = os.path.join(tdd, "debug", "vh-mt")
+    dstats = {}
+    evd = 0
+    for s in range(2 if tier == "quick" else 6):
+        p = subprocess.run([exed, "register", "4", "4", str(reg_ops // 16), str(common.SEED * 100 + 70 + s)], env=common.ENV, stdout=subprocess.PIPE, stderr=subprocess.PIPE, timeout=1800)
+        err = p.stderr.decode("utf-8", "replace")
+        if p.returncode != 0 and library_panic(err):
+            res.violation("c19:panic-in-library", "[native:register:debug-assertions:seed=%d] %s" % (s, library_panic(err)), check="c19", lane="native:register:debug-assertions")
+            continue
+        if p.returncode != 0:
+            raise Inconclusive("vh-mt (dev profile) register exited with %d: %s" % (p.returncode, err[-300:]))
+        evd += check_register(p.stdout.decode(), "native:register:debug-assertions:seed=%d" % s, res, dstats)
+    res.add_lane("native:register:debug-assertions", "held", dstats, evaluations=evd, distinct=evd)
     # first use of the global choice in a fresh process, racing with a write: many short children, delay swept
     nchild = 800 if tier == "quick" else 8000
 
